@@ -10,8 +10,10 @@ Two ties (DESIGN.md section 6, C05):
      contents equal / empty / large, every resolver behaviour, every flavour (+ different hash functions per side, sqlite),
      random engine schedules after the conflict exists.  One line per run goes to the Lean driver layer `monc05`, which decides
      with the model's outcome function (`ok` / `reject <reason>`).
-Known findings (exact replays on the real engine): merged data with keep=True never settles; a falsy non-None answer
-(`()`, `0`, `False`, an empty handle returned bare, ...) is never normalised and the conflict is never resolved.
+Open known finding (exact replay on the real engine): merged data with keep=True never settles.
+Fixed findings (exact replays re-checked on every run; a regression is a VIOLATION with the replay): a falsy non-None answer (`()`, `0`, `False`,
+an empty handle returned bare, ...) used to be returned unvalidated and the conflict was never resolved (commit <SHA_A>); in create/create, after
+a temporary resolver failure and a further user edit, the resolver used to be handed the superseded bytes of the edited side (commit <SHA_B>).
 """
 import io
 import os
@@ -531,11 +533,9 @@ def gen_sched(rng):
 
 
 def known_bad_answer(a):
-    """syntactic filter: answer shapes on which the pinned engine itself violates C05 (open known findings)"""
+    """syntactic filter: answer shapes on which the engine itself violates C05 (open known findings)"""
     if a["kind"] == "merged" and a["keep"]:
         return "merged-keep-never-settles"
-    if a["kind"] == "falsy" or (a["kind"] == "wronglen" and a["n"] == 0):
-        return "falsy-answer-never-resolved"
     return None
 
 
@@ -546,9 +546,7 @@ def fault_allowed(case, method):
 
 
 def known_bad_case(case):
-    """syntactic filter on whole cases"""
-    if case.get("reedit") and case["shape"] == "cc":
-        return "stale-peer-handle-after-further-edit"
+    """syntactic filter on whole cases (none at present: create/create with a further edit was excluded until commit <SHA_B>)"""
     return None
 
 
@@ -561,18 +559,14 @@ def gen_case(rng, i, flavour, allow_known_bad=False):
         d, dclass = merged_data(rng, cl, cr, i)
         a = {"kind": "merged", "data": d, "keep": False, "dclass": dclass}
     else:
-        a = dict(rng.choice(GARBAGE))
+        a = dict(rng.choice(GARBAGE + FALSY))
     case = {"flavour": flavour, "hashes": list(rng.choice(HASH_PAIRS)), "storage": "sqlite" if rng.random() < 0.2 else "mock",
             "shape": rng.choice(["cc", "ee"]), "rel": rng.choice(RELS), "cl": cl, "cr": cr, "base": b"base-%d" % i,
             "base_side": rng.randint(0, 1), "first": rng.randint(0, 1), "answer": a, "temp": rng.choice([0, 0, 0, 1, 2]),
             "read": rng.choice(["full", "full", "none", "partial", "len"]), "sched": gen_sched(rng), "qseed": rng.randint(0, 10 ** 6),
             "bystander": rng.random() < 0.3, "cclass": cclass}
-    if a["kind"] == "nontuple" and a["what"] in ("handle0", "handle1") and (cl if a["what"] == "handle0" else cr) == b"":
-        # a bare empty handle is falsy (ResolveFile.__len__ == 0): that is the falsy-answer finding, kept out by construction
-        a["what"] = "str"
-    if case["shape"] == "ee" and rng.random() < 0.3:
-        # a further user edit of one side before the conflict is resolved (after a temporary resolver failure, or after k engine steps).
-        # Only for edit/edit: for create/create the pinned engine hands the resolver stale bytes (open finding stale-peer-handle-after-further-edit)
+    if rng.random() < 0.3:
+        # a further user edit of one side before the conflict is resolved (after a temporary resolver failure, or after k engine steps)
         case["reedit"] = {"side": rng.randint(0, 1), "data": content_bytes(rng.choice(["small", "small", "nul", "large"]), b"X%d" % i),
                           "when": "after_temp_call" if rng.random() < 0.5 else rng.randint(0, 3), "intake": rng.choice([1, 1, 2])}
         if case["reedit"]["when"] == "after_temp_call":
@@ -846,6 +840,8 @@ def monitor_line(case, out):
     atok = answer_token(a, case.get("temp", 0))
     if a["kind"] == "merged":
         atok = atok % (tags.tag(a["data"]), enc_bool(a["keep"]))
+    if a["kind"] == "nontuple" and a["what"] in ("handle0", "handle1") and eff[0 if a["what"] == "handle0" else 1] == b"":
+        atok = atok.replace("nontuple T", "nontuple F")       # a bare handle of an EMPTY file is falsy (ResolveFile.__len__ == 0)
 
     def tg(x):
         return 0 if x in (None, "D") else tags.tag(x)
@@ -902,7 +898,7 @@ def immediate_effect_line(case, out):
 
 
 GRID_ANSWERS = PICKS + [{"kind": "merged", "keep": False}, {"kind": "none"}, {"kind": "raises"}, {"kind": "nontuple"}, {"kind": "wronglen"},
-                        {"kind": "notfile"}]
+                        {"kind": "notfile"}, {"kind": "falsy"}]
 GRID_CONTENTS = ["differ", "equal", "empty-L", "empty-R", "large", "equal-empty", "noop-L", "noop-R"]
 
 
@@ -923,9 +919,7 @@ def grid_cases(rng, flavours, round_no, per_combo):
                     i += 1
                     case = gen_case(rng, i, fl)
                     case["shape"] = shape
-                    if shape == "cc":
-                        case.pop("reedit", None)
-                    else:
+                    if shape == "ee":
                         case.pop("rel_r", None)
                     base = case["base"]
                     if cc == "differ":
@@ -951,11 +945,11 @@ def grid_cases(rng, flavours, round_no, per_combo):
                     elif a["kind"] == "raises":
                         a["exc"] = rng.choice(["value", "key", "runtime", "cloudfnf", "cloudexists"])
                     elif a["kind"] == "nontuple":
-                        a["what"] = rng.choice(["handle0", "handle1", "str", "int", "list", "dict", "bytesio"])
-                        if a["what"] in ("handle0", "handle1") and (cl if a["what"] == "handle0" else cr) == b"":
-                            a["what"] = "list"
+                        a["what"] = rng.choice(["handle0", "handle1", "handle0", "handle1", "str", "int", "list", "dict", "bytesio"])
+                    elif a["kind"] == "falsy":
+                        a["what"] = rng.choice(["zero", "false", "emptystr", "emptylist", "emptybytes"])
                     elif a["kind"] == "wronglen":
-                        a["n"] = rng.choice([1, 3, 4])
+                        a["n"] = rng.choice([0, 0, 1, 3, 4])
                     elif a["kind"] == "notfile":
                         a["what"], a["keep"] = rng.choice(["str", "none", "bytes", "int", "obj"]), rng.random() < 0.5
                     case["answer"] = a
@@ -1049,8 +1043,10 @@ def replay_falsy(value_kind):
         n = w.run_to_quiet(cap=300)
         tl, tr = w.tree(0), w.tree(1)
         untouched = tl == {"/a": ("f", cl)} and tr == {"/a": ("f", cr)}
+        fallback = n is not None and len(script.log) == 1 and tl == {"/a": ("f", cr), "/a.conflicted": ("f", cl)} and tr == {"/a": ("f", cr)}
         return {"value": value_kind, "quiet_after": n, "resolver_calls": len(script.log), "trees_untouched": untouched,
-                "reproduced": n is None and len(script.log) >= 10 and untouched}
+                "left": tree_lines_b(tl), "right": tree_lines_b(tr),
+                "reproduced": n is None and len(script.log) >= 10 and untouched, "resolved_as_remote_wins_local_kept": fallback}
     finally:
         w.close()
 
@@ -1058,7 +1054,8 @@ def replay_falsy(value_kind):
 def replay_stale_peer():
     """flavour oid-oid; R creates /a = b'data-R16', L creates /a = b'data-L16'; resolver raises CloudTemporaryError at its first call and then
     answers (BytesIO(b'MERGED'), False); engine steps L,R,S,... until the first call; the local user overwrites /a with b'XXXX'; steps L,L
-    (the engine takes the event in); then fair stepping in the order R,S,L to quiet.  The second call's LOCAL handle still carries b'data-L16'."""
+    (the engine takes the event in); then fair stepping in the order R,S,L to quiet.  Before commit <SHA_B> the second call's LOCAL handle still
+    carried b'data-L16'."""
     script = Script({"kind": "merged", "data": b"MERGED", "keep": False}, temp=1, read="full")
     w = RWorld("oid-oid", resolver=script)
     try:
@@ -1088,7 +1085,9 @@ def replay_stale_peer():
         return {"steps_before_first_call": pre, "resolver_calls": len(script.log), "second_call_local_handle_bytes": brief(last["bytes"][list(last["sides"]).index(0)]) if last else None,
                 "local_side_actually_held": brief(last["actual"][0]) if last else None, "final_left": tree_lines_b(tl), "final_right": tree_lines_b(tr),
                 "monitor_line": line, "monitor_verdict": verdict, "later_edit_silently_lost": lost,
-                "reproduced": stale and verdict == "reject handles-are-not-the-two-sides"}
+                "reproduced": stale and verdict == "reject handles-are-not-the-two-sides",
+                "handles_current_and_contract_ok": bool(last) and last["actual"][0] == b"XXXX" and
+                last["bytes"][list(last["sides"]).index(0)] == b"XXXX" and verdict == "ok"}
     finally:
         w.close()
 
@@ -1128,21 +1127,22 @@ def run(res, tier, seed, proof_broken, replay):
             res.known.append("merged-keep-never-settles :: " + opens["merged-keep-never-settles"])
         else:
             res.notes.append("known finding merged-keep-never-settles no longer reproduces (stale): %r" % (r,))
-    if "falsy-answer-never-resolved" in opens:
+    # fixed findings: the exact replays must now satisfy the contract; a regression is a violation with the replay
+    if "falsy-answer-never-resolved" in fixed:
         rs = [replay_falsy(k) for k in ("()", "zero", "false", "empty-handle")]
         kf["falsy-answer-never-resolved"] = rs
-        if all(r["reproduced"] for r in rs):
-            res.known.append("falsy-answer-never-resolved :: " + opens["falsy-answer-never-resolved"])
-        else:
-            res.notes.append("known finding falsy-answer-never-resolved no longer reproduces (stale): %r" % (rs,))
-
-    if "stale-peer-handle-after-further-edit" in opens:
+        bad = [r for r in rs if not r["resolved_as_remote_wins_local_kept"]]
+        if bad:
+            res.violation({"property": PID, "kind": "regression of fixed finding", "id": "falsy-answer-never-resolved",
+                           "replay": "flavour oid-oid; local user creates /a = b'LLL', remote user creates /a = b'RRR' (b'' for the bare empty handle); "
+                                     "the resolver returns the falsy value; fair stepping L,R,S", "expected": "one resolver call, then quiet with the remote "
+                                     "version at /a on both sides and the local one as /a.conflicted on the local side", "observed": bad})
+    if "stale-peer-handle-after-further-edit" in fixed:
         r = replay_stale_peer()
         kf["stale-peer-handle-after-further-edit"] = r
-        if r["reproduced"]:
-            res.known.append("stale-peer-handle-after-further-edit :: " + opens["stale-peer-handle-after-further-edit"])
-        else:
-            res.notes.append("known finding stale-peer-handle-after-further-edit no longer reproduces (stale): %r" % (r,))
+        if not r["handles_current_and_contract_ok"]:
+            res.violation({"property": PID, "kind": "regression of fixed finding", "id": "stale-peer-handle-after-further-edit",
+                           "replay": replay_stale_peer.__doc__, "expected": "the second call's LOCAL handle reads b'XXXX' (what the local side holds)", "observed": r})
 
     # 3a. decision tables: real functions vs model
     l1, r1, labs = tie_safe_call()
@@ -1255,7 +1255,7 @@ def run(res, tier, seed, proof_broken, replay):
                 "7 builtin exceptions, every cloudsync exception class) x both handle orders x 4 object-type pairs through the REAL "
                 "_SyncManager__safe_call_resolver on a real SyncManager, and SyncEntry.hash_conflict over {None, falsy, 2 values}^4 x path {None, '', set}^2 "
                 "(stub entries) + real entries, diffed against the Lean model (driver layer `resolver`); (B) real engine runs: 8 flavours x {create/create, "
-                "edit/edit} x 10 answer classes x 8 content classes (differ, equal, empty either side, large > 64 KiB, both empty, no-op edit either side) "
+                "edit/edit} x 11 answer classes (falsy garbage included) x 8 content classes (differ, equal, empty either side, large > 64 KiB, both empty, no-op edit either side) "
                 "as a full grid, plus random cases; hash-function pairs md5/md5, md5/sha1, sha256hex/md5, salted/sha1; dict and SQLite storage; resolver read "
                 "modes full/none/partial/len; 0-2 leading CloudTemporaryError; random engine schedules (0-14 steps of L/R/S and fixed patterns) after the "
                 "conflict exists, then fair random stepping to quiet; one line per run decided by the Lean monitor `monc05`; distinct = distinct (flavour, hash pair, storage, "
@@ -1276,8 +1276,8 @@ def run(res, tier, seed, proof_broken, replay):
                         "hash functions are injective on the generated contents (md5/sha1/sha256 digests); the model theorem states injectivity as a hypothesis",
                         "the outcome theorems are about the model of the answer handling; the engine is tied to it by the differential table tie (A) and by "
                         "sampled trace refinement (B) (partial); schedule independence is sampled, not proved for the engine",
-                        "answers on which the pinned engine itself breaks the contract (merged data with keep=True; falsy non-None answers) are excluded from the "
-                        "generator by a syntactic filter and replayed exactly as known findings"]
+                        "the answer on which the engine itself breaks the contract (merged data with keep=True) is excluded from the generator by a syntactic "
+                        "filter and replayed exactly as a known finding; a transient fault at an upload of merged data is never injected (C10's subject)"]
 
     # verdicts
     def fails(c):
@@ -1306,9 +1306,6 @@ def run(res, tier, seed, proof_broken, replay):
             if srng.random() < 0.5:
                 # widen: the answer shapes next to the table rows that disagreed
                 c["answer"] = dict(srng.choice(GARBAGE + PICKS + FALSY))
-                if c["answer"]["kind"] == "nontuple" and c["answer"]["what"] in ("handle0", "handle1") and \
-                        (c["cl"] if c["answer"]["what"] == "handle0" else c["cr"]) == b"":
-                    c["answer"]["what"] = "str"
             if known_bad_answer(c["answer"]):
                 continue
             o = run_case(c)
